@@ -124,8 +124,8 @@ CATALOGUE = [
     ("C18", "c18-no-gate", PL, "        if not self.power_pole_type:\n            return\n\n        # Update tile grid with user-specified positions BEFORE placing poles", "        # Update tile grid with user-specified positions BEFORE placing poles", 1, "fire", "C18-R3"),
     ("C18", "c18-reach", EM, "if dist <= min(pole.maximum_wire_distance, neighbor.maximum_wire_distance):", "if dist <= max(pole.maximum_wire_distance, neighbor.maximum_wire_distance):", 1, "fire", "C18-R4"),
     # ---- C19 ----
-    ("C19", "c19-unsorted", CP, "                for sink in sorted(bidir_sinks):", "                for sink in bidir_sinks:", 1, "fire", "bidir_sinks"),
-    ("C19", "c19-unsorted-router", WR, "    for start_node in sorted(pending_nodes):", "    for start_node in pending_nodes:", 1, "fire", "pending_nodes"),
+    ("C19", "c19-unsorted", CP, "                for sink in sorted(bidir_sinks):", "                for sink in bidir_sinks:", 1, "fire", "C19-R1 ConnectionPlanner._populate_wire_connections"),
+    ("C19", "c19-unsorted-router", WR, "    for start_node in sorted(pending_nodes):", "    for start_node in pending_nodes:", 1, "fire", "C19-R1 plan_wire_colors"),
     ("C19", "c19-id-sort", CP, "merge_list = sorted(source_merge_edges.keys())", "merge_list = sorted(source_merge_edges.keys(), key=lambda k: id(k))", 1, "fire", "C19-R2"),
     # ---- C20 ----
     ("C20", "c20-mark-on-decl", SL, "            self.parent.signal_refs[stmt.name] = value_ref\n            self.parent.annotate_signal_ref(stmt.name, value_ref, stmt)\n            return\n\n        # Handle Bundle type declarations", "            self.parent.signal_refs[stmt.name] = value_ref\n            self.parent.referenced_signal_names.add(stmt.name)\n            self.parent.annotate_signal_ref(stmt.name, value_ref, stmt)\n            return\n\n        # Handle Bundle type declarations", 1, "fire", "C20-R1"),
